@@ -656,9 +656,11 @@ class Visitor:
         Parameters:
             node: The node to visit.
         """
+        type_guarded = self.type_guarded
         if isinstance(node.parent, (ast.Module, ast.ClassDef)):  # type: ignore[attr-defined]
             condition = safe_get_condition(node.test, parent=self.current, log_level=None)
             if str(condition) in {"typing.TYPE_CHECKING", "TYPE_CHECKING"}:
                 self.type_guarded = True
         self.generic_visit(node)
-        self.type_guarded = False
+        # Restore the previous state: an `if` nested in a type-guarded block must not end the guard.
+        self.type_guarded = type_guarded
